@@ -2,14 +2,18 @@ package main
 
 // C12: constant folding equals circuit evaluation.
 //
-//   vh c12 replay cases.ndjson results.ndjson trace.ndjson
-//       cases from specs/Fold.tla: (operator, type, consumer) with all / boundary operand
-//       pairs and the expected value.  For each the harness compiles a constant variant
+//   vh c12 replay cases.ndjson results.ndjson
+//       cases from specs/Fold.tla: (operator, type, consumer) with all operand pairs of a
+//       narrow type and the expected value.  For each the harness compiles a constant variant
 //       (typed package-level constants, the expression folded by the compiler) and a
 //       run-time variant (the same expression on main's parameters), confirms with
 //       CompileSSA that folding happened, and compares folded, run-time and expected.
-//   vh c12 wide results.ndjson trace.ndjson n
-//       widths 31..33, 63..65, 127..130: folded versus run-time, written as limb events.
+//   vh c12 cases cases.ndjson results.ndjson trace.ndjson
+//       cases of the space spanned by specs/FoldCat.tla (wide types, operand patterns on the
+//       sizes constants are stored in): folded and run-time values are recorded as limbs and
+//       decided by specs/FoldTrace.tla.
+// Violation keys are "<kind>:<op>:<consumer>@<type>:<x>:<y>": one per input, so that known
+// findings can be listed input by input.
 
 import (
 	"encoding/json"
@@ -52,14 +56,18 @@ func foldExpr(op, x, y string, ycount int64) string {
 	switch op {
 	case "neg":
 		return "-" + x
+	case "not":
+		return "!" + x
 	case "<<", ">>":
 		return fmt.Sprintf("%s %s %d", x, op, ycount)
 	}
 	return fmt.Sprintf("%s %s %s", x, op, y)
 }
 
-func consume(k, e string) string {
+func consume(k, e, x string) string {
 	switch k {
+	case "reuse":
+		return "(" + e + ") ^ " + x
 	case "add1":
 		return "(" + e + ") + 1"
 	case "div3":
@@ -105,48 +113,25 @@ func ssaFolded(src string) (folded bool, err error) {
 	return true, nil
 }
 
-func signClass(signed bool, w int, x, y *big.Int) string {
-	if !signed {
-		return "unsigned"
-	}
-	nx, ny := x.Bit(w-1) == 1, y.Bit(w-1) == 1
-	switch {
-	case nx && ny:
-		return "neg,neg"
-	case nx:
-		return "neg,pos"
-	case ny:
-		return "pos,neg"
-	}
-	return "pos,pos"
-}
-
-func widthClass(w int) string {
-	switch {
-	case w <= 8:
-		return "w<=8"
-	case w <= 32:
-		return "w<=32"
-	case w <= 64:
-		return "w<=64"
-	}
-	return "w>64"
-}
-
 // c12Pair compiles the two variants for one operand pair and returns (folded value, run-time value, class).
-func c12Pair(res *Result, op string, signed bool, w int, k string, x, y *big.Int) (fv, rv *big.Int, class string) {
+func c12Pair(op string, signed bool, w int, k string, x, y *big.Int) (fv, rv *big.Int, class, detail string) {
 	T := typeName(signed, w)
 	rt := T
 	if isCmpOp(op) || k == "lt2" {
 		rt = "bool"
 	}
 	ycount := y.Int64()
-	ce := consume(k, foldExpr(op, "cx", "cy", ycount))
-	re := consume(k, foldExpr(op, "a", "b", ycount))
+	ce := consume(k, foldExpr(op, "cx", "cy", ycount), "cx")
+	re := consume(k, foldExpr(op, "a", "b", ycount), "a")
+	lx, ly := typedLit(signed, w, x), typedLit(signed, w, y)
+	if w == 0 { // booleans
+		T, rt, w = "bool", "bool", 1
+		lx, ly = fmt.Sprint(x.Sign() != 0), fmt.Sprint(y.Sign() != 0)
+	}
 	csrc := fmt.Sprintf("package main\n\nconst cx %s = %s\nconst cy %s = %s\n\nfunc main(a %s, b %s) %s {\n\treturn %s\n}\n",
-		T, typedLit(signed, w, x), T, typedLit(signed, w, y), T, T, rt, ce)
+		T, lx, T, ly, T, T, rt, ce)
 	rsrc := fmt.Sprintf("package main\n\nfunc main(a %s, b %s) %s {\n\treturn %s\n}\n", T, T, rt, re)
-	what := fmt.Sprintf("%s: (%s) with x=%s y=%s", T, ce, typedLit(signed, w, x), typedLit(signed, w, y))
+	what := fmt.Sprintf("%s: (%s) with x=%s y=%s", T, ce, lx, ly)
 	mask := new(big.Int).Sub(new(big.Int).Lsh(big.NewInt(1), uint(w)), big.NewInt(1))
 	if rt == "bool" {
 		mask = big.NewInt(1)
@@ -154,13 +139,12 @@ func c12Pair(res *Result, op string, signed bool, w int, k string, x, y *big.Int
 	folded, err := ssaFolded(csrc)
 	if err != nil {
 		if strings.Contains(err.Error(), "compiler panic") {
-			res.viol("fold-crash:"+op, "the compiler crashes while folding %s: %v", what, err)
-			return nil, nil, "crash"
+			return nil, nil, "crash", fmt.Sprintf("the compiler crashes while folding %s: %v", what, err)
 		}
-		return nil, nil, "rejected"
+		return nil, nil, "rejected", ""
 	}
 	if !folded {
-		return nil, nil, "not-folded"
+		return nil, nil, "not-folded", ""
 	}
 	var cc, rc interface{ Compute([]*big.Int) ([]*big.Int, error) }
 	func() {
@@ -183,40 +167,62 @@ func c12Pair(res *Result, op string, signed bool, w int, k string, x, y *big.Int
 	}()
 	if err != nil {
 		if strings.Contains(err.Error(), "compiler panic") {
-			res.viol("fold-crash:"+op, "the compiler crashes on %s: %v", what, err)
-			return nil, nil, "crash"
+			return nil, nil, "crash", fmt.Sprintf("the compiler crashes on %s: %v", what, err)
 		}
-		return nil, nil, "rejected"
+		return nil, nil, "rejected", ""
 	}
 	fo, err := cc.Compute([]*big.Int{big.NewInt(0), big.NewInt(0)})
 	if err != nil {
-		return nil, nil, "rejected"
+		return nil, nil, "rejected", ""
 	}
 	ro, err := rc.Compute([]*big.Int{x, y})
 	if err != nil {
-		return nil, nil, "rejected"
+		return nil, nil, "rejected", ""
 	}
-	return new(big.Int).And(fo[0], mask), new(big.Int).And(ro[0], mask), "folded"
+	return new(big.Int).And(fo[0], mask), new(big.Int).And(ro[0], mask), "folded", what
+}
+
+type catCase struct {
+	I      int    `json:"i"`
+	Op     string `json:"op"`
+	K      string `json:"k"`
+	W      int    `json:"w"`
+	Signed int    `json:"signed"`
+	Bool   int    `json:"bool"`
+	Xn     string `json:"xn"`
+	Yn     string `json:"yn"`
+	X      []int  `json:"x"`
+	Y      []int  `json:"y"`
+	Cnt    int    `json:"cnt"`
+}
+
+func fromLimbs(l []int) *big.Int {
+	v := new(big.Int)
+	for i := len(l) - 1; i >= 0; i-- {
+		v.Lsh(v, 12)
+		v.Or(v, big.NewInt(int64(l[i])))
+	}
+	return v
 }
 
 func c12Main(args []string) error {
 	if len(args) < 3 {
-		return fmt.Errorf("usage: vh c12 replay|wide ...")
+		return fmt.Errorf("usage: vh c12 replay|cases ...")
 	}
 	rng := rand.New(rand.NewSource(seed()*47055833 + 12))
 	switch args[0] {
 	case "replay":
+		// cases of specs/Fold.tla: every operand pair of narrow types with the expected typed value
 		out, err := newND(args[2])
 		if err != nil {
 			return err
 		}
 		defer out.close()
-		rowsPer := 10
+		rowsPer := 12
 		if thorough() {
-			rowsPer = 60
+			rowsPer = 1 << 20
 		}
 		idx := 0
-		nviol := 0
 		return readND(args[1], func(raw json.RawMessage) error {
 			var fc foldCase
 			if err := json.Unmarshal(raw, &fc); err != nil {
@@ -227,9 +233,6 @@ func c12Main(args []string) error {
 			if w < 3 && fc.K != "ret" {
 				return nil // the consumers' literals do not fit such types
 			}
-			if nviol >= 400 {
-				return nil
-			}
 			res := &Result{Case: idx, Nontrivial: w >= 3}
 			idx++
 			rows := fc.Rows
@@ -238,25 +241,26 @@ func c12Main(args []string) error {
 				rows = rows[:rowsPer]
 			}
 			classes := map[string]int{}
+			T := typeName(signed, w)
 			for _, r := range rows {
 				if r[2] < 0 {
 					continue
 				}
 				x, y := big.NewInt(int64(r[0])), big.NewInt(int64(r[1]))
-				fv, rv, class := c12Pair(res, fc.Op, signed, w, fc.K, x, y)
+				fv, rv, class, detail := c12Pair(fc.Op, signed, w, fc.K, x, y)
 				classes[class]++
+				key := fmt.Sprintf("%s:%s@%s:%d:%d", fc.Op, fc.K, T, r[0], r[1])
+				if class == "crash" {
+					res.viol("fold-crash:"+key, "%s", detail)
+				}
 				if class != "folded" {
 					continue
 				}
-				sc := signClass(signed, w, x, y)
 				want := big.NewInt(int64(r[2]))
-				T := typeName(signed, w)
 				if fv.Cmp(rv) != 0 {
-					res.viol(fmt.Sprintf("fold:%s:%s:%s:%s", fc.Op, fc.K, sc, widthClass(w)),
-						"%s: x=%s y=%s, `x %s y` then %s: folded constant %v, run-time circuit %v (specification %v)", T, typedLit(signed, w, x), typedLit(signed, w, y), fc.Op, fc.K, fv, rv, want)
+					res.viol("fold:"+key, "%s: folded constant %v, run-time circuit %v (specification %v)", detail, fv, rv, want)
 				} else if rv.Cmp(want) != 0 {
-					res.viol(fmt.Sprintf("both-wrong:%s:%s:%s:%s", fc.Op, fc.K, sc, widthClass(w)),
-						"%s: x=%s y=%s, `x %s y` then %s: folded and run-time agree on %v but the typed operator semantics give %v", T, typedLit(signed, w, x), typedLit(signed, w, y), fc.Op, fc.K, rv, want)
+					res.drift("both:"+key+" %s: folded and run-time agree on %v but the typed operator semantics give %v", detail, rv, want)
 				}
 			}
 			best := ""
@@ -266,66 +270,56 @@ func c12Main(args []string) error {
 				}
 			}
 			res.Class = best
-			if len(res.Viol) > 0 {
-				nviol++
-				if len(res.Viol) > 3 {
-					res.Viol = res.Viol[:3]
-				}
-			}
 			if idx <= 2 {
-				res.Sample = map[string]interface{}{"op": fc.Op, "type": typeName(signed, w), "consumer": fc.K, "rows": len(fc.Rows)}
+				res.Sample = map[string]interface{}{"op": fc.Op, "type": T, "consumer": fc.K, "rows": len(fc.Rows)}
 			}
 			out.put(res)
 			return nil
 		})
-	case "wide":
-		out, err := newND(args[1])
+	case "cases":
+		// cases spanned by the catalogue of specs/FoldCat.tla; the verdict on each recorded case is FoldTrace.tla's
+		out, err := newND(args[2])
 		if err != nil {
 			return err
 		}
 		defer out.close()
-		tr, err := newND(args[2])
+		tr, err := newND(args[3])
 		if err != nil {
 			return err
 		}
 		defer tr.close()
-		n := 100
-		if len(args) > 3 {
-			fmt.Sscan(args[3], &n)
-		}
-		widths := []int{16, 31, 32, 33, 63, 64, 65, 127, 128, 129, 130}
-		ops := []string{"+", "-", "*", "/", "%", "&", "|", "^", "&^", "<<", ">>", "<", "<=", ">", ">=", "==", "!=", "neg"}
-		ks := []string{"ret", "add1", "div3", "lt2", "shl1"}
-		for i := 0; i < n; i++ {
-			w := widths[rng.Intn(len(widths))]
-			signed := rng.Intn(2) == 0
-			op := ops[i%len(ops)]
-			k := ks[rng.Intn(len(ks))]
-			x := boundaryOperand(rng, w)
-			y := boundaryOperand(rng, w)
-			if op == "<<" || op == ">>" {
-				y = big.NewInt(int64(1 + rng.Intn(w-1)))
+		return readND(args[1], func(raw json.RawMessage) error {
+			var c catCase
+			if err := json.Unmarshal(raw, &c); err != nil {
+				return err
 			}
-			if (op == "/" || op == "%") && y.Sign() == 0 {
-				y = big.NewInt(3)
+			x, y := fromLimbs(c.X), fromLimbs(c.Y)
+			if c.Op == "<<" || c.Op == ">>" {
+				y = big.NewInt(int64(c.Cnt))
 			}
-			res := &Result{Case: i, Nontrivial: true}
-			fv, rv, class := c12Pair(res, op, signed, w, k, x, y)
-			res.Class = "wide:" + class
+			w := c.W
+			T := typeName(c.Signed == 1, w)
+			if c.Bool == 1 {
+				w, T = 0, "bool"
+			}
+			key := fmt.Sprintf("%s:%s@%s:%s:%s", c.Op, c.K, T, c.Xn, c.Yn)
+			res := &Result{Case: c.I, Nontrivial: true}
+			fv, rv, class, detail := c12Pair(c.Op, c.Signed == 1, w, c.K, x, y)
+			res.Class = class
+			if class == "crash" {
+				res.viol("fold-crash:"+key, "%s", detail)
+			}
 			if class == "folded" {
-				T := typeName(signed, w)
-				ok := 1
-				if fv.Cmp(rv) != 0 {
-					ok = 0
-					res.viol(fmt.Sprintf("fold:%s:%s:%s:%s", op, k, signClass(signed, w, x, y), widthClass(w)),
-						"%s: x=%s y=%s, `x %s y` then %s: folded constant %v, run-time circuit %v", T, typedLit(signed, w, x), typedLit(signed, w, y), op, k, fv, rv)
+				lw := c.W
+				if c.Bool == 1 || isCmpOp(c.Op) || c.K == "lt2" {
+					lw = 1
 				}
-				tr.put(map[string]interface{}{"ev": "fold", "op": op, "k": k, "w": w, "signed": b2i(signed), "x": limbs(x, w), "y": limbs(y, w),
-					"folded": limbs(fv, w), "runtime": limbs(rv, w), "same": ok})
+				tr.put(map[string]interface{}{"i": c.I, "key": key, "what": detail, "op": c.Op, "k": c.K, "w": c.W, "signed": c.Signed, "bool": c.Bool,
+					"x": limbs(x, c.W), "y": limbs(y, c.W), "folded": limbs(fv, lw), "runtime": limbs(rv, lw), "fv": fv.String(), "rv": rv.String()})
 			}
 			out.put(res)
-		}
-		return nil
+			return nil
+		})
 	}
 	return fmt.Errorf("unknown c12 mode")
 }
